@@ -3,5 +3,5 @@
 (* transcribed memos and emits the script A, B, A with the verdict of the model (every call   *)
 (* must give, bit for bit, what the same request gives in a fresh process of the real library).*)
 EXTENDS SimHist, Json
-Emit == (step' = 3) => PrintT(ToJson([kind |-> "aba", a |-> a, b |-> b, same |-> (\A i \in 1..3 : outs'[i] = OutTerm(IF i = 2 THEN b ELSE a, NoMemo))]))
+Emit == (step' = 3) => PrintT(ToJson([kind |-> "aba", style |-> style, a |-> a, b |-> b, same |-> (\A i \in 1..3 : outs'[i] = OutTerm(IF i = 2 THEN b ELSE a, NoMemo))]))
 =============================================================================
